@@ -43,6 +43,9 @@ func H_C14_capture() {
 		rt.Note(src)
 		rt.Assert(arrOfInts(h.EvalNoPanic(src), want...), "a value yielded by an earlier step still holds that step's arguments after the iterator has advanced")
 	}
+	// the yielded expression is evaluated only when the guard holds (it may pull from another iterator)
+	r := h.EvalNoPanic(`src := [1, 2, 3, 4]._iter; t := <{|n| yield src.next if n > 0; recur(n - 1)}>.new(2); x := t.next; y := t.next; z := t.try.next.err?; w := t.try.next.err?; [x, y, src.next, t.A.len]`)
+	rt.Assert(arrOfInts(r, 1, 2, 3, 0), "each next evaluates the body once and stops exactly when the guard is false, without evaluating the guarded expression")
 }
 
 type c14State struct{ n int64 }
